@@ -508,6 +508,12 @@ def eval_trilinear(desc):
     if ub.N * vb.N * wb.N <= 30000 and len(T.data) <= 6000:
         Td = T.toarray()
         out.append(('toarray3', abs(float(np.einsum('abc,a,b,c', Td, w, v, u)) - lhs), scale))
+        # complex-valued trilinear form: triplets, the dense 3-tensor and the functional keep the imaginary part
+        Tc = TrilinearForm(lambda *a: (1.0 + 2.0j) * f(*a), dtype=np.complex128).assemble(ub, vb, wb, **dict(par))
+        Tcd = Tc.toarray()
+        out.append(('toarray3-complex', float(np.abs(Tcd - (1.0 + 2.0j) * Td).max(initial=0.0)), float(np.abs(Td).max(initial=0.0)) + 1e-300))
+        Jc = Functional(lambda p: (1.0 + 2.0j) * f(*p['uh'], *p['vh'], *p['wh'], p)).assemble(ub, uh=uh, vh=vh, wh=wh, **dict(par))
+        out.append(('Twvu=J-complex', abs(complex(np.einsum('abc,a,b,c', Tcd, w, v, u)) - complex(Jc)), scale))
     return out, {'elements': (eu, ev, ew), 'Nbfun': (int(ub.Nbfun), int(vb.Nbfun), int(wb.Nbfun)), 'nelems': int(ub.nelems), 'terms': terms}
 
 
@@ -562,7 +568,7 @@ def run(ctx):
             worst = max(worst, rel if np.isfinite(rel) else 0.0)
             if not (err <= TOL * scale):
                 ctx.fail(key + ':' + name, f'{name}: discrepancy {err:.3e} (scale {scale:.3e}, tolerance {TOL:g}*scale)',
-                         {'oracle_case': dict(desc, trilinear=name in ('Twvu=J', 'toarray3', 'trilinear-shape')), 'info': info,
+                         {'oracle_case': dict(desc, trilinear=name in ('Twvu=J', 'toarray3', 'trilinear-shape', 'toarray3-complex', 'Twvu=J-complex')), 'info': info,
                           'check': name, 'error': float(err), 'scale': float(scale)})
     stats['trilinear cases'] = ntri
     ctx.extra['oracle'] = {'cases': n, 'max_relative_discrepancy': worst, 'tolerance': TOL,
